@@ -194,3 +194,54 @@ Proof.
   eexists. split; [vm_compute; reflexivity|]. split; [reflexivity|]. vm_compute. discriminate.
 Qed.
 Print Assumptions print_parse_not_head_refuted.
+
+(* ---------------------------------------------------------------- the parser twins on EVERY
+   token list (W1): fuel, totality, positions.  Model/StmtParser.v is the twin of the statement
+   part of parser.go (tied to Parser.Parse by the kind-4 stream of the correspondence). *)
+From KV Require Import Model.ErrPos Model.StmtParser Proofs.StmtParserProofs.
+From Coq Require Import ZArith.
+
+(* the expression parser never runs out of fuel at the fuel the correspondence runs it with,
+   never dereferences a missing token, and a successful parse consumes at least one token *)
+Theorem parse_expr_total : forall ts,
+  parse_expr_top ts <> PFuel /\ parse_expr_top ts <> PPanic /\
+  forall e rest, parse_expr_top ts = POk e rest -> length rest < length ts.
+Proof. exact parse_expr_top_total. Qed.
+Print Assumptions parse_expr_total.
+
+(* every Pos in a tree the expression parser returns is the pos of an input token, and so is
+   the position of every error it returns (None = end of input) *)
+Theorem expr_tree_positions_are_token_positions : forall ts e rest,
+  parse_expr_top ts = POk e rest -> Forall (tok_pos ts) (positions e).
+Proof. exact expr_tree_positions_thm. Qed.
+Print Assumptions expr_tree_positions_are_token_positions.
+
+Theorem expr_err_position_is_token_position : forall ts p,
+  parse_expr_top ts = PErr (Some p) -> tok_pos ts p.
+Proof. exact expr_err_position_thm. Qed.
+Print Assumptions expr_err_position_is_token_position.
+
+(* the statement parser: total for every behaviour of the semantic tests run while parsing *)
+Theorem statement_parser_total : forall h ts,
+  (exists s, parse_with h ts = SOk s) \/ (exists p, parse_with h ts = SErr p).
+Proof. exact parse_with_total. Qed.
+Print Assumptions statement_parser_total.
+
+(* positions of the pure syntax: trees carry 0 or token positions, errors -1 or token positions *)
+Theorem statement_tree_positions : forall ts s,
+  parse_statement ts = SOk s -> Forall (tok_pos0 ts) (stmt_positions s).
+Proof. exact syntax_tree_positions_thm. Qed.
+Print Assumptions statement_tree_positions.
+
+Theorem statement_err_position : forall ts z,
+  parse_statement ts = SErr z -> err_at (tok_pos ts) z.
+Proof. exact syntax_err_position_thm. Qed.
+Print Assumptions statement_err_position.
+
+Example statement_parser_nonvacuous :
+  parse_statement [Tok SELECT "select" 0; Tok KEY "key" 7; Tok AS "as" 11; Tok NAME "k" 14;
+                   Tok WHERE "where" 16; Tok KEY "key" 22; Tok OPERATOR "=" 26; Tok STRING "a" 28;
+                   Tok LIMIT "limit" 32; Tok NUMBER "2" 38; Tok SEP "," 39; Tok NUMBER "3" 41; Tok SEMI ";" 42]
+  = SOk (StSelect (Select 0 false [EField 7 KeyKW] ["k"] 16
+                     (EBin 26 OEq (EField 22 KeyKW) (EStr 28 "a")) None None (Some (Limit 32 2 3)))).
+Proof. vm_compute. reflexivity. Qed.
